@@ -198,6 +198,80 @@ theorem self_assignment_holds_client (rt : Int → Nat → Int → RT) (hrt : Ro
         simp [selectTransport, addTarget, h, h2, newHTTPProxy, newTransport, setConfigWith, Cell.init, Cfg.zero]
   simp only [serve, h, hrt.inTime 0 st d (Or.inl (Int.le_refl 0))]
 
+/-! ### Every handler path; the whole response -/
+
+/-- Both reverse-proxy branches of `ServeHTTP` (server-sent events and default) get the selected transport
+itself — not a copy, not a variant —, whatever the flush intervals; only a websocket upgrade gets none. -/
+theorem all_handler_paths_use_selected_transport (p : Proxy) (fi gfi : Int) (t : Target) (path : Path)
+    (hws : path ≠ .websocket) :
+    ∃ h, handlerFor p fi gfi t path = some h ∧ h.transport = selectTransport p t := by
+  cases path with
+  | websocket => exact absurd rfl hws
+  | sse => exact ⟨_, rfl, rfl⟩
+  | default => exact ⟨_, rfl, rfl⟩
+
+/-- Which path a request takes depends on `Upgrade` and `Accept` only; without a websocket upgrade it is one of
+the two reverse-proxy branches. -/
+theorem handlerPath_no_upgrade (upgrade accept : String) (h1 : upgrade ≠ "websocket") (h2 : upgrade ≠ "Websocket") :
+    handlerPath upgrade accept = (if accept = "text/event-stream" then .sse else .default) ∧
+    handlerPath upgrade accept ≠ .websocket := by
+  unfold handlerPath
+  have : ¬ (upgrade = "websocket" ∨ upgrade = "Websocket") := by simp [h1, h2]
+  rw [if_neg this]
+  refine ⟨rfl, ?_⟩
+  split <;> simp
+
+/-- Hence on every handler path the transport carries the operator's configuration … -/
+theorem every_path_uses_config (s : Cell) (c : Cfg) (o : TargetOpts) (fi gfi : Int) (path : Path) (hws : path ≠ .websocket) :
+    ∃ h, handlerFor (newHTTPProxy (setConfig s c)) fi gfi (addTarget (setConfig s c) o) path = some h ∧
+      Carries c h.transport := by
+  obtain ⟨h, h1, h2⟩ := all_handler_paths_use_selected_transport (newHTTPProxy (setConfig s c)) fi gfi
+    (addTarget (setConfig s c) o) path hws
+  exact ⟨h, h1, h2 ▸ selected_transport_uses_config s c o⟩
+
+/-- … and a slow upstream is answered with 504 at the timeout on every handler path, for every accept header,
+flush interval, transport kind and body the upstream might have sent later. -/
+theorem slow_upstream_504_every_path (rt : Int → Nat → Int → RT) (hrt : RoundTripContract rt)
+    (s : Cell) (c : Cfg) (o : TargetOpts) (fi gfi : Int) (path : Path) (hws : path ≠ .websocket)
+    (st : Nat) (d body : Int) (hT : 0 < c.responseHeaderTimeout) (hd : c.responseHeaderTimeout < d) :
+    ∃ h, handlerFor (newHTTPProxy (setConfig s c)) fi gfi (addTarget (setConfig s c) o) path = some h ∧
+      serveFull rt h.transport requestDeadline st d body
+        = ⟨504, c.responseHeaderTimeout, true, c.responseHeaderTimeout⟩ := by
+  obtain ⟨h, h1, h2⟩ := every_path_uses_config s c o fi gfi path hws
+  refine ⟨h, h1, ?_⟩
+  simp only [serveFull, h2.1, hrt.timeout _ st d hT hd, errorStatus]
+
+/-- "The same upstream is served normally when it answers in time": headers before the timeout ⇒ the upstream's
+status and its complete body, however long the body streams (`body` is unconstrained: it may exceed every
+configured limit), on every handler path. -/
+theorem in_time_response_complete (rt : Int → Nat → Int → RT) (hrt : RoundTripContract rt)
+    (s : Cell) (c : Cfg) (o : TargetOpts) (fi gfi : Int) (path : Path) (hws : path ≠ .websocket)
+    (st : Nat) (d body : Int) (hd : d < c.responseHeaderTimeout ∨ c.responseHeaderTimeout ≤ 0) :
+    ∃ h, handlerFor (newHTTPProxy (setConfig s c)) fi gfi (addTarget (setConfig s c) o) path = some h ∧
+      serveFull rt h.transport requestDeadline st d body = ⟨st, d, true, d + body⟩ := by
+  obtain ⟨h, h1, h2⟩ := every_path_uses_config s c o fi gfi path hws
+  refine ⟨h, h1, ?_⟩
+  have hin : rt c.responseHeaderTimeout st d = .response st d :=
+    hrt.inTime _ st d (by rcases hd with h | h; exact Or.inr h; exact Or.inl h)
+  simp only [serveFull, h2.1, hin, requestDeadline]
+
+/-- Why the request context matters (the hypothesis `requestDeadline = none` is a regenerated fact): a deadline
+on the context that falls inside the body truncates an answer that came in time. -/
+theorem context_deadline_truncates (rt : Int → Nat → Int → RT) (hrt : RoundTripContract rt)
+    (tr : Transport) (D : Int) (st : Nat) (d body : Int)
+    (hd : d < tr.responseHeaderTimeout) (hD : D < d + body) :
+    (serveFull rt tr (some D) st d body).complete = false := by
+  have hin : rt tr.responseHeaderTimeout st d = .response st d := hrt.inTime _ st d (Or.inr hd)
+  have : ¬ (d + body ≤ D) := by omega
+  simp only [serveFull, hin, this, if_false]
+
+/-- A transport that differs from the selected one in its response-header timeout (e.g. a copy with the limit
+removed) does hold the client: the previous theorems need the *same* transport on every path. -/
+theorem copied_transport_without_limit_holds_client (rt : Int → Nat → Int → RT) (hrt : RoundTripContract rt)
+    (tr : Transport) (st : Nat) (d body : Int) :
+    serveFull rt { tr with responseHeaderTimeout := 0 } requestDeadline st d body = ⟨st, d, true, d + body⟩ := by
+  simp only [serveFull, hrt.inTime 0 st d (Or.inl (Int.le_refl 0)), requestDeadline]
+
 /-! ### Non-vacuity: the hypotheses above are satisfiable on non-trivial values -/
 
 /-- a typical operator configuration: 30 s dial, 100 ms header timeout, 10 s keep-alive, 15 s idle, 10000 conns -/
@@ -222,6 +296,16 @@ example : serve roundTrip (selectTransport (newHTTPProxy (setConfig Cell.init cf
     201 20000000 = (201, 20000000) :=
   fast_upstream_served roundTrip roundTrip_contract _ _ _ _ _ (by decide)
 example : serve roundTrip (newTransport (setConfigWith .parameter Cell.init cfgEx) none) 200 500000000 = (200, 500000000) := by decide
+example : handlerPath "" "text/event-stream" = .sse ∧ handlerPath "" "text/event-stream, */*" = .default ∧
+    handlerPath "websocket" "text/event-stream" = .websocket := by decide
+example : (handlerFor (newHTTPProxy (setConfig Cell.init cfgEx)) 1000000000 0 (addTarget (setConfig Cell.init cfgEx) optsEx) .sse).map
+    (·.transport.responseHeaderTimeout) = some 100000000 := by decide
+-- headers after 20 ms, then a 5 s body with a 100 ms response-header timeout: complete, at 5.02 s
+example : serveFull roundTrip (newTransport (setConfig Cell.init cfgEx) none) requestDeadline 200 20000000 5000000000
+    = ⟨200, 20000000, true, 5020000000⟩ := by decide
+-- the same with a context deadline of dial + header timeout (30.1 s) and a 40 s body: cut off
+example : (serveFull roundTrip (newTransport (setConfig Cell.init cfgEx) none) (some 30100000000) 200 20000000 40000000000).complete
+    = false := by decide
 example : errorStatus .netTimeout = 504 ∧ errorStatus .netOther = 502 ∧ errorStatus .canceled = 499 := by decide
 
 end Fabio.Props.C19
